@@ -94,6 +94,12 @@ inductive Conf (s : SchemaD) (d : Doc) : Bool → FEntry → FEntry → Prop whe
       f1.hasSub = true → f2.hasSub = true → Adm s d f1.ssid p1 → Adm s d f2.ssid p2 →
       Coll s d p1 f1.sub rn e1 → Coll s d p2 f2.sub rn e2 →
       Conf s d (pme || exclusiveParents s f1 f2) e1 e2 → Conf s d pme f1 f2
+  /-- the same with the two sub-fields compared in the other order (the search compares the fields of one
+      sub-selection with the fragments of the other in both directions) -/
+  | subSwap {pme : Bool} {f1 f2 : FEntry} {p1 p2 : Option String} {rn : String} {e1 e2 : FEntry} :
+      f1.hasSub = true → f2.hasSub = true → Adm s d f1.ssid p1 → Adm s d f2.ssid p2 →
+      Coll s d p1 f1.sub rn e1 → Coll s d p2 f2.sub rn e2 →
+      Conf s d (pme || exclusiveParents s f1 f2) e2 e1 → Conf s d pme f1 f2
 
 /-- **5.3.2 Field selection merging**: in no selection set of the document do two fields of the same response name
     conflict -/
